@@ -75,6 +75,24 @@ func c06Build(in *c06In, now time.Time) (c06Req, error) {
 				fmt.Sprintf("%s Credential=%s, SignedHeaders=%s, Signature=%s", l.AlgorithmValue, cred, p.Signed, tag)})
 		}
 	}
+	if jp := in.JPlan; jp != nil {
+		t := now.Unix()
+		claims := `{"sub":"alice"`
+		for _, c := range []struct {
+			n string
+			v *int64
+		}{{"exp", jp.Exp}, {"nbf", jp.Nbf}, {"iat", jp.Iat}} {
+			if c.v != nil {
+				claims += fmt.Sprintf(`,"%s":%d`, c.n, t+*c.v)
+			}
+		}
+		tok := c06Issue(jp.Alg, jp.Secret, fmt.Sprintf(`{"alg":"%s","typ":"JWT"}`, jp.Alg), claims+"}")
+		if jp.Cookie != "" {
+			r.Headers = append(r.Headers, [2]string{"Cookie", jp.Cookie + "=" + tok})
+		} else {
+			r.Headers = append(r.Headers, [2]string{"Authorization", "Bearer " + tok})
+		}
+	}
 	for _, m := range in.Muts {
 		c06ApplyMut(&r, m, l, p)
 	}
@@ -253,6 +271,11 @@ func c06RunOn(v *Validator, in c06In) c06Obs {
 	// a ttl of a few seconds against timestamps of one second resolution: sign right after a second starts
 	phase := in.Cfg.Sig != nil && in.Plan != nil && in.Cfg.Sig.ttlNs() > 0 && in.Cfg.Sig.ttlNs() < int64(4*time.Second) &&
 		in.Plan.AgeS >= -4 && in.Plan.AgeS <= 4
+	if in.JNow == 0 && in.JPlan != nil { // real jwt clock: issue and present within one second
+		for _, o := range []*int64{in.JPlan.Exp, in.JPlan.Nbf, in.JPlan.Iat} {
+			phase = phase || (o != nil && *o >= -2 && *o <= 2)
+		}
+	}
 	for attempt := 0; ; attempt++ {
 		if phase || attempt > 0 {
 			if ns := time.Now().Nanosecond(); ns > int(100*time.Millisecond) {
@@ -266,10 +289,17 @@ func c06RunOn(v *Validator, in c06In) c06Obs {
 			break
 		}
 		wire := c06Wire(&req)
-		obs = c06Deliver(v, wire, in.JNow, cookie)
+		obs = c06Deliver(v, wire, in.JNow, cookie, in.Pre)
 		nowA := time.Now().UnixNano()
 		obs.Wire = c06Hex(string(wire))
-		if !obs.Delivered || in.Cfg.Sig == nil || c06TimeDeterminate(in.Cfg.Sig, obs.View, obs.NowNs, nowA) {
+		det := !obs.Delivered || in.Cfg.Sig == nil || c06TimeDeterminate(in.Cfg.Sig, obs.View, obs.NowNs, nowA)
+		if det && obs.Delivered && in.Cfg.JWT != nil && obs.JNowAfter != obs.JNow {
+			// the jwt clock moved during the call: usable only if the verdict is the same at both ends
+			a, _ := c06RefJWT(in.Cfg.JWT, obs.View, obs.JNow)
+			b, _ := c06RefJWT(in.Cfg.JWT, obs.View, obs.JNowAfter)
+			det = a == b
+		}
+		if det {
 			break
 		}
 		if attempt >= 5 {
@@ -282,7 +312,7 @@ func c06RunOn(v *Validator, in c06In) c06Obs {
 			obs.TTLNs = in.Cfg.Sig.ttlNs()
 		}
 		obs.Tabs = c06BuildTables(&in.Cfg, obs.View)
-		obs.Expect, obs.ExpectWhy = c06Expect(&in.Cfg, obs.View, in.JNow, obs.NowNs)
+		obs.Expect, obs.ExpectWhy = c06Expect(&in.Cfg, obs.View, obs.JNow, obs.NowNs)
 	}
 	return obs
 }
@@ -1049,6 +1079,9 @@ func c06GenCase(r *vfRand, adv bool) c06In {
 		kind += 100
 	}
 	in.Kind = kind
+	if set["sig"] && r.Chance(1, 3) { // behind a filter that leaves the request alone
+		in.Pre = r.PickStr("setpath", "trim", "regexp", "replace")
+	}
 	return in
 }
 
@@ -1136,6 +1169,32 @@ func c06Enum(step int) []c06In {
 				Req: c06Req{Method: "GET", Path: "/ttl", Host: "example.com"}, Plan: &pl, JNow: 1700000000, Kind: 18,
 				Note: fmt.Sprintf("ttl %s, signature %d s old", ta.ttl, ta.age)})
 		}
+	}
+	// correctly signed requests behind a filter that does not change them; paths whose escaping is not
+	// the one Go would produce (always, not sampled)
+	for pi, path := range []string{"/a%2Fb/c", "/a%7Eb", "/a!b", "/a(b)", "/a%2fb", "/caf%C3%A9", "/a*b'c", "/plain", "/a%20b", "/a+b;c=1"} {
+		for qi, pre := range []string{"setpath", "trim", "regexp", "replace"} {
+			mode := []string{"header", "query"}[(pi+qi)%2]
+			pl := c06SigPlan{Mode: mode, KeyID: "AKID", Secret: "SECRET", AgeS: 2, Expires: 300, Signed: []string{"host"}, BodyAs: "actual"}
+			if mode == "header" {
+				pl.Signed = append(pl.Signed, "x-me-date")
+			}
+			out = append(out, c06In{Cfg: c06Cfg{Sig: &c06SigCfg{Keys: [][2]string{{"AKID", "SECRET"}}, TTL: "10m"}},
+				Req: c06Req{Method: "GET", Path: path, Host: "example.com", Query: [][2]string{{"q", "1"}}}, Plan: &pl, Pre: pre,
+				JNow: 1700000000, Kind: 1, Note: "behind " + pre})
+		}
+	}
+	// jwt on the real clock: time claims within +-90 s of now (always, not sampled)
+	for _, o := range [][3]int64{{30, 99, 99}, {-30, 99, 99}, {59, -59, -59}, {-1, 99, 99}, {99, -30, 99}, {99, 30, 99}, {99, 99, -30}, {99, 99, 30}, {90, -90, -90}, {-90, 99, 99}} {
+		jp := c06JPlan{Alg: "HS256", Secret: "6d79736563726574"}
+		for k, dst := range []**int64{&jp.Exp, &jp.Nbf, &jp.Iat} {
+			if o[k] != 99 {
+				x := o[k]
+				*dst = &x
+			}
+		}
+		out = append(out, c06In{Cfg: c06Cfg{JWT: &c06JWTCfg{Alg: "HS256", Secret: "6d79736563726574"}}, JPlan: &jp,
+			Req: c06Req{Method: "GET", Path: "/", Host: "example.com"}, Kind: 68, Note: "real clock"})
 	}
 	// signature with the announced payload hash header (always, not sampled)
 	for _, mode := range []string{"header", "query"} {
